@@ -838,6 +838,9 @@ class Cache(object):
                     db_txs = db_txs2
                 else:
                     return []
+            elif not db_addr.last_block:
+                # The transactions of this address were never retrieved: single cached transactions are not its history
+                return []
             else:
                 db_txs = self.session.query(DbCacheTransaction).join(DbCacheTransactionNode). \
                     filter(DbCacheTransactionNode.address == address). \
@@ -916,6 +919,11 @@ class Cache(object):
         """
         if not self.cache_enabled():
             return False
+        db_addr = self.getaddress(address)
+        if not db_addr or not db_addr.last_block:
+            # The transactions of this address were never retrieved: outputs of single cached transactions are not
+            # the complete list up to the last one
+            return []
         db_utxos = self.session.query(DbCacheTransactionNode.spent, DbCacheTransactionNode.index_n,
                                       DbCacheTransactionNode.value, DbCacheTransaction.confirmations,
                                       DbCacheTransaction.block_height, DbCacheTransaction.fee,
